@@ -59,6 +59,9 @@ RULE = ("a case = (command line, answers the proxy gives in the order asked); sy
 
 URL = 'http://localhost:65532'
 API = '3.0'
+# the "wrong API version" server state: versions on BOTH sides of the client's -- older, newer, newer but lower when compared
+# as strings ('10.0' < '3.0'), longer / shorter spellings, not a number at all
+WRONG_API = ['2.0', '1.0', '', '3.1', '4.0', '30.0', '10.0', '3.0.1', '3', '3.00', '03.0', '3.0 ', '2.9', '3.0a', 'three', '9']
 
 # ---------------------------------------------------------------------------------------------------
 # encoding of cases for the model
@@ -457,6 +460,15 @@ def monitor(ctx, r, script):
     greys = [v for v in verdicts if v[0] == 'grey']
     wf = args_ok(action, arg)
     up = all(a == ('S', API) for m, _, a in r.log if m == 'getVersion')
+    # --- wrong API version (older or newer): the action is not carried out
+    last_version = None
+    for m, a_, ans in r.log:
+        if m == 'getVersion':
+            last_version = ans
+        elif last_version is not None and last_version[0] == 'S' and last_version[1] != API:
+            bad('request-after-wrong-api-version', 'the daemon reported API version %r (the client speaks %r) and %s%r was requested all the same'
+                % (last_version[1], API, m, tuple(a_)))
+            break
     # --- update: results of stopProcessGroup that the client does not look at
     if action == 'update':
         ignored = [fname(st) for m, _, a in r.log if m == 'stopProcessGroup' and a[0] == 'R'
@@ -725,7 +737,7 @@ def bad_answers(rng, meth, args, full):
         res.append(('F', c, '%s: x' % fname(c)))
     res += [('H', 401), ('H', 500), ('E', _errno.ECONNREFUSED), ('E', _errno.ENOENT), ('E', _errno.EPIPE)]
     if meth == 'getVersion':
-        res += [('S', '2.0'), ('S', '')]
+        res += [('S', v) for v in WRONG_API]
     if meth in LIST_METHODS:
         res.append(('R', []))
         for c in all_codes():
